@@ -50,6 +50,9 @@ def digest(x):
     if x is None:
         return None
     if isinstance(x, str):
+        w = core.active()
+        if w is not None and w.root:
+            x = x.replace(w.root, '<ROOT>')   # generated comments quote the source path
         x = x.encode('utf-8', 'replace')
     elif not isinstance(x, bytes):
         x = json.dumps(x, sort_keys=True, default=repr).encode()
@@ -145,6 +148,14 @@ class SimSource(_Tap):
     def _text_for(self, name):
         scn = self._t.scn
         h = self.spec.get('holds', {}).get(name)
+        if h is None and self.spec.get('casefold'):
+            # like the file readers: the name is also tried in upper case; the alias reported is the variant that matched
+            for k in sorted(self.spec.get('holds', {})):
+                if k.upper() == name.upper():
+                    h = self.spec['holds'][k]
+                    self._alias = k
+                    name = k
+                    break
         if h is None:
             base = self.spec.get('base', 'all')
             if name in basemibs.ALL_BASE and (base == 'all' or (isinstance(base, list) and name in base)):
@@ -159,6 +170,8 @@ class SimSource(_Tap):
         specs = scn['modules']
         parts = []
         for m in mods:
+            if m not in specs:
+                continue
             sp = dict(specs[m])
             ov = h.get('variants', {}).get(m)
             if ov:
@@ -172,10 +185,13 @@ class SimSource(_Tap):
         self._t.lookup = mibname
 
         def thunk():
+            self._alias = mibname
             o, text = self._text_for(mibname)
             if o == 'ok':
                 self._t.world.probe('source-served')
-                return MibInfo(path='sim://src%d/%s' % (self.idx, mibname), file=mibname + '.mib', name=mibname,
+                if self._alias != mibname:
+                    self._t.world.probe('alias-lookup')
+                return MibInfo(path='sim://src%d/%s' % (self.idx, self._alias), file=self._alias + '.mib', name=self._alias,
                                mtime=self.spec.get('mtime', core.EPOCH0)), text
             if o == 'notfound':
                 raise error.PySmiReaderFileNotFoundError('source MIB %s not found' % mibname, reader=self)
@@ -356,11 +372,110 @@ class SimWriter(_Tap):
         return ''
 
 
+class RealTap(_Tap):
+    """Generic tap around a real pysmi component running over the interposed filesystem."""
+
+    def __init__(self, trace, idx, real, site):
+        _Tap.__init__(self, trace)
+        self.idx = idx
+        self._real = real
+        self._site = site
+
+    def __str__(self):
+        return 'RealTap(%s#%s)' % (self._site, self.idx)
+
+    def __getattr__(self, name):
+        return getattr(self._real, name)
+
+    def setOptions(self, **kw):
+        self._real.setOptions(**kw)
+        return self
+
+    def getData(self, mibname, **options):
+        if self._site == 'src.getData':
+            self._t.lookup = mibname
+        return self._call(self._site, self.idx, mibname, lambda: self._real.getData(mibname, **options),
+                          kw={'genTexts': options.get('genTexts')}, payload=lambda r: digest(r[1]) if isinstance(r, tuple) else None)
+
+    def fileExists(self, mibname, mtime, rebuild=False):
+        return self._call('searcher.fileExists', self.idx, mibname, lambda: self._real.fileExists(mibname, mtime, rebuild=rebuild),
+                          kw={'mtime': mtime, 'rebuild': rebuild})
+
+    def putData(self, mibname, data, comments=(), dryRun=False):
+        return self._call('writer.putData', 0, mibname, lambda: self._real.putData(mibname, data, comments=comments, dryRun=dryRun),
+                          kw={'dryRun': dryRun, 'data': data})
+
+
+def build_real_world(t, scn, root):
+    """Materialise the scenario on the scratch filesystem and return real components behind taps."""
+    import os
+    from pysmi.borrower.anyfile import AnyFileBorrower
+    from pysmi.reader.localfile import FileReader
+    from pysmi.searcher.anyfile import AnyFileSearcher
+    from pysmi.searcher.stub import StubSearcher
+    from pysmi.writer.localfile import FileWriter
+    specs = scn['modules']
+    dst = os.path.join(root, 'dst')
+    sources, searchers, borrowers = [], [], []
+    with core.unhooked():
+        os.makedirs(dst)
+        for i, s in enumerate(scn.get('sources', ())):
+            d = os.path.join(root, 'src%d' % i)
+            os.makedirs(d)
+            base = s.get('base', 'all')
+            for n, txt in basemibs.ALL_BASE.items():
+                if base == 'all' or (isinstance(base, list) and n in base):
+                    with open(os.path.join(d, n), 'w') as f:
+                        f.write(txt)
+                    os.utime(os.path.join(d, n), (s.get('mtime', core.EPOCH0), s.get('mtime', core.EPOCH0)))
+            for name, h in sorted(s.get('holds', {}).items()):
+                if h.get('o', 'ok') != 'ok':
+                    continue
+                mods = scn.get('files', {}).get(name, [name])
+                parts = []
+                for m in mods:
+                    sp = dict(specs[m])
+                    if h.get('variants', {}).get(m):
+                        sp['variant'] = h['variants'][m]
+                    parts.append(mibgen.render(sp, specs))
+                with open(os.path.join(d, name), 'w') as f:
+                    f.write('\n'.join(parts))
+                os.utime(os.path.join(d, name), (s.get('mtime', core.EPOCH0), s.get('mtime', core.EPOCH0)))
+            rd = FileReader(d, ignoreErrors=not s.get('strict', False))
+            sources.append(RealTap(t, i, rd, 'src.getData'))
+        for i, se in enumerate(scn.get('searchers', ())):
+            if se.get('flavour') in ('stub', 'realstub'):
+                searchers.append(RealTap(t, i, StubSearcher(*[n for n, a in sorted(se.get('answers', {}).items()) if a == 'fresh']), 'searcher.fileExists'))
+            else:
+                for n, a in sorted(se.get('answers', {}).items()):
+                    if a in ('fresh', 'stale'):
+                        p = os.path.join(dst, n + '.json')
+                        with open(p, 'w') as f:
+                            f.write('{"old": "%s"}\n' % n)
+                        tt = core.EPOCH0 + (10 if a == 'fresh' else -100000)
+                        os.utime(p, (tt, tt))
+                searchers.append(RealTap(t, i, AnyFileSearcher(dst).setOptions(exts=['.json']), 'searcher.fileExists'))
+        for i, b in enumerate(scn.get('borrowers', ())):
+            d = os.path.join(root, 'bor%d' % i)
+            os.makedirs(d)
+            for n, o in sorted(b.get('holds', {}).items()):
+                if o == 'ok':
+                    with open(os.path.join(d, n + '.json'), 'w') as f:
+                        f.write('{"borrowed": "%s", "from": %d}\n' % (n, i))
+            br = AnyFileBorrower(FileReader(d), genTexts=b.get('genTexts', False)).setOptions(exts=['.json'])
+            borrowers.append(TapBorrower(t, i, br))
+    writer = RealTap(t, 0, FileWriter(dst).setOptions(suffix='.json'), 'writer.putData')
+    return sources, searchers, borrowers, writer, dst
+
+
 # --------------------------------------------------------------------------
 def step_cap(scn):
     n = len(scn.get('modules', {})) + len(basemibs.ALL_BASE) + len(scn.get('requested', ()))
     k = len(scn.get('sources', ())) + len(scn.get('searchers', ())) + len(scn.get('borrowers', ())) + 1
-    return 60 + 14 * n * k
+    cap = 60 + 14 * n * k
+    if scn.get('realfs'):
+        cap *= 120    # every lookup through the real readers/searchers is dozens of stat/listdir events
+    return cap
 
 
 def run_world(scn, root=None, writer=None, extra_setup=None):
@@ -373,7 +488,11 @@ def run_world(scn, root=None, writer=None, extra_setup=None):
     core.patch_pysmi()
     parser = TapParser(t, get_parser())
     codegen = TapCodegen(t, new_codegen(scn.get('codegen', 'json')))
-    wr = writer if writer is not None else SimWriter(t, scn)
+    real = None
+    if scn.get('realfs') and root is not None and writer is None:
+        real = build_real_world(t, scn, root)
+        t.dst = real[4]
+    wr = writer if writer is not None else (real[3] if real else SimWriter(t, scn))
     saved = pc.SymtableCodeGen
     pc.SymtableCodeGen = make_symtab_tap(t)
     try:
@@ -382,10 +501,15 @@ def run_world(scn, root=None, writer=None, extra_setup=None):
         pc.SymtableCodeGen = saved
     t.compiler = comp
     t.writer = wr
-    comp.addSources(*[SimSource(t, i, s) for i, s in enumerate(scn.get('sources', ()))])
-    comp.addSearchers(*[SimSearcher(t, i, s) for i, s in enumerate(scn.get('searchers', ()))])
-    comp.addBorrowers(*[TapBorrower(t, i, AnyFileBorrower(SimBorrowReader(t, i, b), genTexts=b.get('genTexts', False)))
-                        for i, b in enumerate(scn.get('borrowers', ()))])
+    if real:
+        comp.addSources(*real[0])
+        comp.addSearchers(*real[1])
+        comp.addBorrowers(*real[2])
+    else:
+        comp.addSources(*[SimSource(t, i, s) for i, s in enumerate(scn.get('sources', ()))])
+        comp.addSearchers(*[SimSearcher(t, i, s) for i, s in enumerate(scn.get('searchers', ()))])
+        comp.addBorrowers(*[TapBorrower(t, i, AnyFileBorrower(SimBorrowReader(t, i, b), genTexts=b.get('genTexts', False)))
+                            for i, b in enumerate(scn.get('borrowers', ()))])
     opts = {k: v for k, v in scn.get('options', {}).items() if k in OPTION_NAMES}
     with w:
         w.begin_op(0, 'compile')
@@ -551,11 +675,40 @@ def gen_world(rng, tier, focus='C07'):
     if rng.random() < 0.1:
         opts['writeMibs'] = False
     scn['options'] = opts
+    if focus in ('C07', 'C08') and rng.random() < 0.12:
+        # names spelled in another case in IMPORTS; sources resolve them like the file readers do and report the
+        # matching variant as alias
+        scn['alias'] = True
+        for s_ in scn['sources']:
+            s_['casefold'] = True
+        for m, sp in specs.items():
+            for d_ in sp['imports']:
+                if rng.random() < 0.6:
+                    sp.setdefault('spell', {})[d_] = d_.title() if rng.random() < 0.7 else d_.lower()
+    elif focus in ('C07', 'C08', 'C09') and rng.random() < 0.15:
+        # the same scenario over the real FileReader / AnyFileSearcher / AnyFileBorrower / FileWriter on the
+        # interposed filesystem; component failures then come from injected errno instead of outcome tables
+        scn['realfs'] = True
+        scn.pop('inject', None)
+        scn.pop('writer_fail', None)
+        scn['codegen'] = 'json'
+        scn['files'] = {}
+        scn.pop('co_only', None)
+        scn['listing_seed'] = rng.randrange(1 << 30)
+        for s_ in scn['sources']:
+            s_['strict'] = rng.random() < 0.5
+        if rng.random() < 0.6:
+            scn['rate'] = {'p': rng.choice([0.01, 0.03, 0.1]), 'seed': rng.randrange(1 << 30), 'actions': ['errno', 'short'],
+                           'sites': sorted(rng.sample(['os.stat', 'os.listdir', 'open', 'file.read', 'mkstemp', 'os.write', 'os.close', 'os.rename'], rng.randrange(2, 8)))}
     return scn
 
 
 def shrink_world(scn):
     """Generic candidate edits for compile-sim scenarios."""
+    if scn.get('rate'):
+        s = copy.deepcopy(scn)
+        s.pop('rate')
+        yield s
     for key in ('inject', 'writer_fail'):
         for i in range(len(scn.get(key, []))):
             s = copy.deepcopy(scn)
